@@ -39,7 +39,9 @@ def api_run(inst, method):
         import traceback
 
         tb = traceback.format_exc()
-        if "PulpSolverError" in type(e).__name__ or "glpsol" in str(e):
+        if "glpsol" in str(e) or ("PulpSolverError" in type(e).__name__ and "Error while executing" not in str(e)):
+            # the solver binary itself is missing / cannot be started: an environment fact. "Error while executing" means the
+            # solver ran and rejected the model the method built (e.g. repeated variable names): judged below
             return P, "solver-unavailable"
         inner = [l for l in tb.splitlines() if l.strip().startswith("File ")][-1].strip()
         P.append(("%s:exception:%s" % (method, type(e).__name__), "%s.distribute raised %s: %s (%s)" % (method, type(e).__name__, str(e)[:200], inner)))
@@ -87,7 +89,7 @@ def cli_run(inst, method, algo):
 
             tb = traceback.format_exc()
             inner = [l for l in tb.splitlines() if l.strip().startswith("File ")][-1].strip()
-            if "PulpSolverError" in type(e).__name__:
+            if "PulpSolverError" in type(e).__name__ and "Error while executing" not in str(e):
                 return P, "solver-unavailable"
             P.append(("cli:%s:exception:%s" % (method, type(e).__name__), "distribute command (%s, %s) raised %s: %s (%s)" % (
                 method, algo, type(e).__name__, str(e)[:200], inner)))
